@@ -467,12 +467,81 @@ pub fn test(r: &RawSyms, ev: &mut Ev, opts: &ModelOpts) -> Result<(), Violation>
     }
 }
 
+/// Programs with hundreds to thousands of symbols of every kind (counts on both sides of 2^8 and 2^12,
+/// names up to 150 characters, definitions after the use for half of the .equ names and labels, every
+/// use in another letter case than the definition); values are known by construction.
+pub fn scale_program(n: usize) -> (String, Vec<u8>) {
+    let mut src = String::new();
+    let mut code: Vec<u8> = vec![];
+    let mut w = |code: &mut Vec<u8>, v: u16| code.extend_from_slice(&v.to_le_bytes());
+    let long = |i: usize| if i % 50 == 7 { "_long".repeat(1 + i % 29) } else { String::new() };
+    let mut pos = 0u32; // word address
+    for i in 0..n {
+        let e = format!("Equ{}_{}x", long(i), i);
+        let l = format!("lab{}_{}x", long(i), i);
+        let sname = format!("Var_{}x", i);
+        let a = format!("Al_{}x", i);
+        let ev = (3 * i as u32 + 1) % 65536;
+        if i % 2 == 1 {
+            src.push_str(&format!(".equ {} = {}\n", e, ev));
+        }
+        // uses in other letter cases; labels are referenced before they are defined
+        let lab_addr = pos + 2 + 2 + 1;
+        src.push_str(&format!(".dw {}, {}\n", e.to_uppercase(), l.to_uppercase()));
+        w(&mut code, ev as u16);
+        w(&mut code, (lab_addr % 65536) as u16);
+        pos += 2;
+        src.push_str(&format!(".set {} = {}\n.dw {}\n.set {} = {} + 1\n.dw {}\n", sname, i % 65000, sname.to_lowercase(), sname.to_uppercase(), sname, sname.to_uppercase()));
+        w(&mut code, (i % 65000) as u16);
+        w(&mut code, (i % 65000) as u16 + 1);
+        pos += 2;
+        let r = 16 + (i % 16) as u16;
+        src.push_str(&format!(".def {} = r{}\nldi {}, {}\n.undef {}\n", a, r, a.to_uppercase(), i % 256, a.to_lowercase()));
+        w(&mut code, 0xe000 | ((i as u16 % 256 & 0xf0) << 4) | ((r - 16) << 4) | (i as u16 % 256 & 0x0f));
+        pos += 1;
+        src.push_str(&format!("{}: nop\n", l));
+        w(&mut code, 0);
+        pos += 1;
+        if i % 2 == 0 {
+            src.push_str(&format!(".equ {} = {}\n", e.to_lowercase(), ev));
+        }
+    }
+    (src, code)
+}
+
+fn scale_leg(total: &mut Ev, thorough: bool) {
+    use rayon::prelude::*;
+    let mut sizes = vec![40usize, 255, 256, 257, 1000, 4100];
+    if thorough {
+        sizes.extend([8200usize, 20000]);
+    }
+    let results: Vec<(usize, String, Result<(), String>, serde_json::Value)> = sizes
+        .into_par_iter()
+        .map(|n| {
+            let (src, code) = scale_program(n);
+            let chk = Check::Image { src: src.clone(), code: Some(code), eeprom: Some(vec![]), ram_filling: None, sizes: None, messages: None };
+            let r = chk.eval();
+            (n, src, r, chk.to_json())
+        })
+        .collect();
+    for (n, src, r, replay) in results {
+        total.eval();
+        total.class("hundreds-to-thousands-of-symbols-of-every-kind");
+        total.nt(fp(&src));
+        if let Err(why) = r {
+            let k = if why.contains("differs") { "wrong-value" } else if why.contains("anic") { "panic" } else { "rejected" };
+            total.violation(Violation { sig: format!("c10:scale:{}", k), what: format!("[{} symbols of each kind] {}", n, crate::run::truncate(&why, 300)), replay });
+        }
+    }
+}
+
 pub fn run(ctx: &Ctx) -> Result<Ev, String> {
     let opts = ModelOpts { devices: vec![] };
     let shards = 32usize;
     let per = (if ctx.thorough { 1_500_000 } else { 120_000 } / shards) as u32;
     let seed = ctx.seed;
     let mut total = par::run_shards("C10", shards, |s| par::prop_shard("C10", seed, s, per, &raw_syms(), |c, ev| test(c, ev, &opts)));
+    scale_leg(&mut total, ctx.thorough);
     // one name with two definitions of value-carrying kinds (label, .equ, .set): there is no unique
     // definition a reference could resolve to, so the build fails — a reference never silently takes
     // the value of the other one.  Both orders, the second spelling in another letter case.
